@@ -52,14 +52,16 @@
 (*                 of @deprecated(...) between backticks into the reST     *)
 (*                 source of a ".. deprecated::" directive (deprecate.py   *)
 (*                 :144-156, :43-49)                                       *)
-(*   RstReparse    the part of that text behind a line separator is read   *)
-(*                 by docutils as reST structure of its own (docutils      *)
-(*                 splits its input with str.splitlines())                 *)
-(*   DocutilsRaw   ... e.g. a raw directive, whose content the HTML        *)
-(*                 writer copies unescaped (visit_raw)                     *)
-(*                                                                         *)
-(*   DocutilsCopy  html4css1.visit_image copies the :alt: text of an image  *)
-(*                 that is shown as <object> into the HTML unescaped       *)
+(*                 after collapsing all white space - every separator      *)
+(*                 docutils splits lines at is white space - and showing   *)
+(*                 backticks as quotes (fix 3c0307e): the text stays ONE   *)
+(*                 reST literal.  The alternative text of an image shown   *)
+(*                 as <object> goes through encode() like any other text   *)
+(*                 (node2stan.HTMLTranslator.visit_image, fix 0ba83bd).    *)
+(*                 Both repairs are stated unconditionally: the old        *)
+(*                 behaviours are no route of this module, their return is *)
+(*                 a step / sink that is not in the model and a violation  *)
+(*                 on the pages.                                           *)
 (*                                                                         *)
 (* Payload classes: "linesep" (only matters where text is pasted into reST *)
 (* source: it holds a line separator other than "\n"), "plain" (every character can be written in XML) and    *)
@@ -82,14 +84,7 @@
 (***************************************************************************)
 EXTENDS Integers, Sequences, FiniteSets, TLC, Json, IOUtils
 
-CONSTANTS Source,         \* "enum" | "file"
-          DeprecateQuoting, \* what extensions/deprecate.py neutralises in a non-identifier replacement= string before
-                           \* it is pasted into reST source: "newline_only" (deprecate.py:147, replace('\n', ' ')) |
-                           \* "all_separators" (every separator docutils splits lines at, and backticks)
-          ObjectAlt        \* what the HTML writer does with the alternative text of an image shown as <object>
-                           \* (.svg .swf .mp4 .webm .ogg): "raw" (docutils html4css1 visit_image:
-                           \* starttag(...) + node.get('alt', uri) + '</object>', not overridden by
-                           \* node2stan.HTMLTranslator) | "encoded" (the text goes through encode() first)
+CONSTANT Source          \* "enum" | "file"
 
 DocFormats == {"epytext", "restructuredtext", "plaintext", "google", "numpy"}
 Docutils == DocFormats \ {"plaintext"}     \* formats rendered through docutils nodes
@@ -104,9 +99,7 @@ Routes ==
     xrefrst    |-> <<"ToNode", "LinkLabel", "FlattenInner", "ParseXml", "FlattenToFile">>,
     xrefepy    |-> <<"ToNode", "DocutilsEncode", "ParseXml", "LinkLabel", "FlattenInner", "ParseXml", "FlattenToFile">>,
     doctest    |-> <<"ToNode", "Colorize", "FlattenInner", "ParseXml", "FlattenToFile">>,
-    rstquote   |-> <<"RstInterpolate", "ToNode", "DocutilsEncode", "ParseXml", "FlattenToFile">>,
-    rstraw     |-> <<"RstInterpolate", "RstReparse", "DocutilsRaw", "ParseXml", "FlattenToFile">>,
-    objectalt  |-> <<"ToNode", "DocutilsCopy", "ParseXml", "FlattenToFile">> ]
+    rstquote   |-> <<"RstInterpolate", "ToNode", "DocutilsEncode", "ParseXml", "FlattenToFile">> ]
 
 \* container before -> after, level change
 Stage ==
@@ -123,10 +116,7 @@ Stage ==
     ParseXmlFails  |-> [from |-> {"html"},         to |-> "lost", d |-> 0],
     Fallback       |-> [from |-> {"lost"},         to |-> "stan", d |-> 0],   \* level := 0, see Apply
     Elide          |-> [from |-> {"lost"},         to |-> "none", d |-> 0],
-    RstInterpolate |-> [from |-> {"src"},          to |-> "src",  d |-> 0],
-    RstReparse     |-> [from |-> {"src"},          to |-> "node", d |-> 0],
-    DocutilsRaw    |-> [from |-> {"node"},         to |-> "html", d |-> 0],
-    DocutilsCopy   |-> [from |-> {"node"},         to |-> "html", d |-> 0] ]
+    RstInterpolate |-> [from |-> {"src"},          to |-> "src",  d |-> 0] ]
 
 \* ----------------------------------------------------------------------------- sinks per source kind
 S(z, c, q) == [zone |-> z, ctx |-> c, quoted |-> q]
@@ -190,12 +180,10 @@ Feeds ==
   \cup { Feed("default", S("signature", "text", FALSE), "signature") }
   \cup { Feed("annotation", S("signature", "text", FALSE), "signature") }
   \* @deprecated(Version(...), replacement="text"): shown in the ".. deprecated::" box above the docstring
-  \*   (objectExtras, pages/__init__.py:326); with a line separator in the text, what follows is reST of its own
+  \*   (objectExtras, pages/__init__.py:326); a line separator in the text changes nothing (payload class linesep)
   \cup { Feed("deprecated", S("docstring", "text", FALSE), "rstquote") }
-  \cup { Feed("deprecated", S("docstring", "text", FALSE), "rstraw") }
   \* ".. image:: x.png / x.svg" with ":alt: text" in a reST docstring: alt attribute of <img>, content of <object>
   \cup { Feed("imagealt", S("docstring", "attr", FALSE), "docutils") }
-  \cup { Feed("imagealt", S("docstring", "text", FALSE), "objectalt") }
   \cup { Feed("imagealt", S("docstring", "text", FALSE), "docutils") }
   \* options                                                              (pages/__init__.py:182-186)
   \cup { Feed("projname", S(z, "text", FALSE), "stan") : z \in {"alldocs", "footer", "navbar"} }
@@ -207,9 +195,7 @@ Kinds == {f.kind : f \in Feeds}
 Classes == {"plain", "xmlbreak", "linesep"}
 \* a feed only exists for some payload classes
 Active(f, cls) ==
-  /\ (cls = "linesep") => f.kind = "deprecated"           \* elsewhere a line separator is an ordinary character
-  /\ (f.route = "rstraw") => (cls = "linesep" /\ DeprecateQuoting = "newline_only")
-  /\ (f.kind = "imagealt" /\ f.ctx = "text") => ((f.route = "objectalt") <=> (ObjectAlt = "raw"))
+  (cls = "linesep") => f.kind = "deprecated"              \* elsewhere a line separator is an ordinary character
 FirstParse(r) == CHOOSE i \in 1..Len(r) : r[i] = "ParseXml" /\ \A j \in 1..(i - 1) : r[j] # "ParseXml"
 HasParse(r) == \E i \in 1..Len(r) : r[i] = "ParseXml"
 Cut(r) == SubSeq(r, 1, FirstParse(r) - 1) \o <<"ParseXmlFails">>
@@ -257,13 +243,13 @@ Observed == IF Source = "file" THEN JsonDeserialize(IOEnv.C10_OBSERVED) ELSE <<>
 VARIABLES pair,     \* the (kind, sink, route) being walked        (enum)   / observation number (file)
           cls,      \* payload class
           pc,       \* next stage of the route
-          level, cont, parsedRaw, reparsed, hist
-vars == <<pair, cls, pc, level, cont, parsedRaw, reparsed, hist>>
+          level, cont, parsedRaw, hist
+vars == <<pair, cls, pc, level, cont, parsedRaw, hist>>
 
 Init ==
   /\ IF Source = "enum" THEN pair \in Feeds /\ cls \in Classes /\ Active(pair, cls)
      ELSE pair \in 1..Len(Observed) /\ cls = "plain"
-  /\ pc = 1 /\ level = 0 /\ cont = "src" /\ parsedRaw = FALSE /\ reparsed = FALSE /\ hist = <<>>
+  /\ pc = 1 /\ level = 0 /\ cont = "src" /\ parsedRaw = FALSE /\ hist = <<>>
 
 Route == IF Source = "enum" THEN RouteSeq(pair, cls) ELSE <<>>
 
@@ -274,7 +260,6 @@ Step ==
        /\ level' = Apply(st, level)
        /\ cont' = Stage[st].to
        /\ parsedRaw' = (parsedRaw \/ (st \in {"ParseXml", "ParseXmlFails"} /\ level = 0))
-       /\ reparsed' = (reparsed \/ st = "RstReparse")
        /\ hist' = Append(hist, <<ObsStage(st), level, ObsOut(st, level)>>)
   /\ pc' = pc + 1
   /\ UNCHANGED <<pair, cls>>
@@ -286,17 +271,8 @@ Done == pc = Len(Route) + 1
 
 \* ----------------------------------------------------------------------------- properties (model)
 NeverParsedRaw == ~parsedRaw
-\* text pasted into markup source must stay text for that markup's parser too
-NeverReparsedAsMarkup == ~reparsed
-\* known finding deprecate-replacement-reparsed-as-rst: the invariants hold everywhere else
-KF_DeprecateReplacementReparsed == Source = "enum" /\ pair.kind = "deprecated" /\ cls = "linesep" /\ pair.route = "rstraw"
-\* known finding object-alt-copied-raw
-KF_ObjectAltCopiedRaw == Source = "enum" /\ pair.kind = "imagealt" /\ pair.route = "objectalt"
-NeverParsedRawExceptKnown == NeverParsedRaw \/ KF_DeprecateReplacementReparsed \/ KF_ObjectAltCopiedRaw
-NeverReparsedAsMarkupExceptKnown == NeverReparsedAsMarkup \/ KF_DeprecateReplacementReparsed
 \* a flow ends in the page at level 1 - or, after an XML error, nowhere; fallback routes included
 SinkLevelOne == (Source = "enum" /\ Done) => ((cont = "file" /\ level = 1) \/ (cont = "none" /\ cls = "xmlbreak"))
-SinkLevelOneExceptKnown == SinkLevelOne \/ KF_DeprecateReplacementReparsed \/ KF_ObjectAltCopiedRaw
 WellTyped == Source = "enum" => (pc <= Len(Route) => cont \in Stage[Route[pc]].from)
 SameAsWalk == (Source = "enum" /\ Done) => hist = [i \in DOMAIN Flow(pair, cls) |->
                   <<Flow(pair, cls)[i].stage, Flow(pair, cls)[i].lin, Flow(pair, cls)[i].lout>>]
@@ -304,7 +280,7 @@ SameAsWalk == (Source = "enum" /\ Done) => hist = [i \in DOMAIN Flow(pair, cls) 
 EmitEnum == (Source = "enum" /\ Done) =>
   PrintT(ToJson([kind |-> pair.kind, zone |-> pair.zone, ctx |-> pair.ctx, quoted |-> pair.quoted, cls |-> cls,
                  route |-> pair.route, stages |-> hist, final |-> level, reaches |-> cont = "file",
-                 parsedRaw |-> parsedRaw, reparsed |-> reparsed, steps |-> {h \in Rng(hist) : h[1] \in Observable}]))
+                 parsedRaw |-> parsedRaw, steps |-> {h \in Rng(hist) : h[1] \in Observable}]))
 
 \* ----------------------------------------------------------------------------- properties (observed)
 ObsSinks(o) == Rng(o.sinks)
